@@ -136,7 +136,9 @@ fn trip() -> impl Strategy<Value = Trip> {
     })
 }
 
-fn golden_pin(ctx: &Ctx) {
+/// Returns false when a captured packet is not reproduced. That is only an infrastructure problem (exit 2) when the
+/// round trips below find nothing: a decoder that no longer decrypts real traffic fails those too, and a violation wins.
+fn golden_pin(ctx: &Ctx) -> bool {
     // the two captured packets of the repository: decrypt with the decoder, re-encrypt with the independent
     // implementation, and demand the original bytes (pins the key schedule and XXTEA to real traffic)
     for (line, ts) in include_str!("../../../corpus/flarm_golden.txt").lines().zip([1_655_274_034u32, 1_655_279_476u32]) {
@@ -159,18 +161,19 @@ fn golden_pin(ctx: &Ctx) {
         }
         ctx.eval();
         if !ok {
-            eprintln!("INCONCLUSIVE: independent FLARM encryptor does not reproduce the captured packet {line}");
-            std::process::exit(2);
+            eprintln!("independent FLARM encryptor does not reproduce the captured packet {line}");
+            return false;
         }
     }
     ctx.class_n("captured packets reproduced by the independent encryptor", 2);
+    true
 }
 
 pub fn run(ctx: &Ctx) {
     ctx.set_rule("(a) packets of length 0..=40 (random bytes; magic byte forced valid for 2/3; also well-formed encrypted packets with arbitrary words), any u32 timestamp, references from {finite, NaN, +-inf, +-1e300, i32 limits}: Ok or Err, never a panic, decoded latitude/longitude/speeds/track finite, track in [0,360), JSON renders. (b) field tuples (address, magic 0x10/0x20, type 0..15, flags, GPS 12 bits, altitude 0..8191 m, vertical speed, derivatives, multiplier, spare bits), timestamps on both key tables, references anywhere, truth = reference + offset within 0.99 of +-3.3 deg / +-6.7 deg taken numerically: packed and XXTEA-encrypted by an independent implementation; decoded address, address type, aircraft type, flags, GPS, altitude equal and position within 1.28e-5 deg. Non-trivial = (a) accepted packet, (b) truth more than 0.01 deg from the reference; distinct by hash.");
     ctx.assume("independent key schedule + XXTEA encryption reproduce the repository's two captured packets byte for byte (checked at start)");
     ctx.assume("the echoed reference_lat/reference_lon inputs are not 'numbers of the record'; decoded quantities are");
-    golden_pin(ctx);
+    let pinned = golden_pin(ctx);
     let n = ctx.tier.pick(1_600_000u32, 24_000_000u32);
     let shards = 16u32;
     (0..shards).into_par_iter().for_each(|s| {
@@ -199,6 +202,10 @@ pub fn run(ctx: &Ctx) {
     f.lon20 = flarmenc::lon_field(t.truth[1]);
     ctx.sample(json!({"kind": "trip", "ts": t.ts, "reference": t.reference, "truth": t.truth, "packet": hex::encode(flarmenc::packet(&f, t.ts, t.trailer))}));
     ctx.judge(check_trip(ctx, &t));
+    if !pinned && ctx.n_violations() == 0 {
+        eprintln!("INCONCLUSIVE: the captured packets are not reproduced although every generated round trip passes");
+        std::process::exit(2);
+    }
 }
 
 pub fn replay(ctx: &Ctx, v: &Value) {
